@@ -28,7 +28,7 @@ RULE = (
     'complete Cartesian products: (certification set x altitude x Mach x scale) with the whole '
     'fuel-flow alphabet (every branch point and +-1 ulp) evaluated as one vector per case; ISA altitude '
     'alphabet x call form; smoke-number^4 x engine type x bypass ratio; sulfur x yield; FOA3 thrust x HC; '
-    'MEEM engine variant x altitude x Mach x scale; all 75 relative orders (with ties) of the four calibration flows; every SCOPE11 case '
+    'MEEM engine variant x altitude x Mach x scale; all 75 relative orders (with ties) of the four calibration flows; ordered pairs of certification sets x altitude pairs evaluated on ONE set of argument objects refilled in place four times; every SCOPE11 case '
     'also runs a fixed call sequence (five short-lived argument objects, then one mutable object edited in place four times). A case is non-trivial when at least one value was '
     'compared with the reference (or a documented refusal was observed); distinct = distinct case'
 )
@@ -199,6 +199,11 @@ ORDER_VALUES = [0.11, 0.343, 1.031, 1.293]
 FLOW_ORDERINGS = _weak_orderings(4)  # every relative order (with ties) of idle/approach/climb/take-off flows
 
 
+# in-place reuse of argument objects: (altitude of first fill, altitude of second fill)
+REUSE_ALT_PAIRS = [(0.0, 12000.0), (12000.0, 3000.0), (5000.0, 5000.0)]
+REUSE_N = 64
+
+
 SN_QUICK = [-1.0, 0.0, 2.1, 11.2, NEXT(40.0, 0.0), 40.0, 45.0]
 SN_THOROUGH = [-1.0, 0.0, NEXT(0.0, 1.0), 0.5, 2.1, 3.064, 11.2, 25.0, NEXT(40.0, 0.0), 40.0, NEXT(40.0, INF), 45.0, 100.0]
 ENGINE_TYPES = ['TF', 'MTF', 'XX']
@@ -255,6 +260,14 @@ def sublattices(tier, seed):
             'name': 'cat: every relative order (with ties) of the four calibration flows (fuel-flow alphabet inside)',
             'axes': {'ranks(idle,approach,climb,takeoff)': [list(r) for r in FLOW_ORDERINGS], 'values_by_rank': ORDER_VALUES},
             'cases': [{'k': 'cat', 'ranks': list(r)} for r in FLOW_ORDERINGS],
+        }
+    )
+    rcert = list(CERT_ALL) if tier == 'thorough' else CERT_QUICK
+    subs.append(
+        {
+            'name': 'reuse: ordered pair of certification sets x altitude pair; the SAME argument objects refilled in place between calls',
+            'axes': {'first': rcert, 'second': rcert, 'h': [list(x) for x in REUSE_ALT_PAIRS], 'buffer_length': [REUSE_N]},
+            'cases': [{'k': 'reuse', 'a': a, 'b': b, 'h': list(hp)} for a in rcert for b in rcert for hp in REUSE_ALT_PAIRS],
         }
     )
     subs.append(
@@ -732,6 +745,223 @@ def _run_cat(case):
     return {'outcome': f'cat:{order}:{len(set(case["ranks"]))}-distinct-flows', 'nontrivial': acc.compared > 0, 'violations': acc.v}
 
 
+# --------------------------------------------------------------------------- in-place reuse
+
+
+def _reuse_fill(cs, h, step):
+    """Contents of every work buffer for one fill: REUSE_N flows (the branch alphabet of the set,
+    padded with interior values), per-element altitudes / Mach numbers and the ISA state."""
+    fl = flow_alphabet(cs)
+    top = max(cs['ff'])
+    k = 0
+    while len(fl) < REUSE_N:
+        fl.append(top * (0.03 + 0.017 * k))
+        k += 1
+    fl = fl[:REUSE_N] if step % 2 == 0 else fl[:REUSE_N][::-1]
+    alts = [(h + 137.0 * j) % 25000.0 for j in range(REUSE_N)]
+    mach = [MACH[(j + step) % len(MACH)] for j in range(REUSE_N)]
+    t = [R.isa_temperature(a) for a in alts]
+    p = [R.isa_pressure(a) for a in alts]
+    return fl, alts, mach, t, p
+
+
+def _nan_equal(a, b):
+    a, b = np.asarray(a, float), np.asarray(b, float)
+    return a.shape == b.shape and bool(np.all((a == b) | (np.isnan(a) & np.isnan(b))))
+
+
+def _run_reuse(case):
+    """Every array / mutable argument object is created once and refilled in place before each
+    later call; each answer is judged against the reference for the CURRENT contents."""
+    S = _STATE
+    acc = _Acc()
+    TM = list(S['ThrustMode'])
+    sa, eu = S['sa'], S['eutils']
+    N = REUSE_N
+    h1, h2 = (float(x) for x in case['h'])
+    plan = [(case['a'], h1, 1.0), (case['b'], h2, 1.0), (case['a'], h1, 2.0), (case['b'], h1, 0.5)]
+    # the objects that live through the whole sequence
+    ff, fin, alt, mach, tb, pb, tas = (np.zeros(N) for _ in range(7))
+    thr, hcb = np.zeros(N), np.zeros(N)
+    tma = S['ThrustModeArray'](np.array(['approach'] * N))
+    ffcal_tm = S['TMV'](1.0, 1.0, 1.0, 1.0, mutable=True)
+    ei_tm = {k: S['TMV'](1.0, 1.0, 1.0, 1.0, mutable=True) for k in ('nox', 'hc', 'co')}
+    m_alt, m_t, m_p, m_m = (np.zeros(5) for _ in range(4))
+    edb, _ = _meem_edb('measured', 1.0)
+    for nm in ('nvPM_mass_matrix', 'nvPM_num_matrix', 'SN_matrix'):
+        setattr(edb, nm, getattr(edb, nm).copy(mutable=True))
+
+    for step, (csname, h, scale) in enumerate(plan):
+        cs = CERT_ALL[csname]
+        tag = f'fill {step + 1} ({csname}, h0={h}, scale={scale})'
+        fl, alts, mc, tl, pl = _reuse_fill(cs, h, step)
+        # ---- refill in place
+        ff[:] = fl
+        fin[:] = [2.0 * max(x, 0.0) for x in fl]
+        alt[:] = alts
+        mach[:] = mc
+        tb[:] = tl
+        pb[:] = pl
+        tas[:] = [m * math.sqrt(R.GAMMA * R.ISA_R * t) for m, t in zip(mc, tl)]
+        for mo, v in zip(TM, cs['ff']):
+            ffcal_tm[mo] = v
+        eis = {k: [scale * x for x in cs[k]] for k in ('nox', 'hc', 'co')}
+        for k in eis:
+            for mo, v in zip(TM, eis[k]):
+                ei_tm[k][mo] = v
+        ffcal = cs['ff']
+        ref_cats = [R.thrust_category(x, ffcal) for x in fl]
+
+        # ---- ISA on the altitude / pressure buffers
+        ok, r = _call(acc, 'isa-raised', f'{tag} temperature', sa.temperature_at_altitude_isa_bada4, alt)
+        if ok:
+            for j in range(N):
+                acc.cmp('reuse-isa', lambda j=j: f'{tag}: T(alt[{j}]={alts[j]!r})', np.asarray(r)[j], tl[j], 1e-12)
+        ok, r = _call(acc, 'isa-raised', f'{tag} pressure', sa.pressure_at_altitude_isa_bada4, alt)
+        if ok:
+            for j in range(N):
+                acc.cmp('reuse-isa', lambda j=j: f'{tag}: p(alt[{j}]={alts[j]!r})', np.asarray(r)[j], pl[j], 1e-11)
+        ok, r = _call(acc, 'isa-raised', f'{tag} altitude_from_pressure', sa.altitude_from_pressure_isa_bada4, pb)
+        if ok:
+            r = np.asarray(r, float)
+            for j in range(N):
+                acc.compared += 1
+                if not (math.isfinite(r[j]) and abs(r[j] - alts[j]) <= 1e-9 * alts[j] + 1e-6):
+                    acc.add('reuse-isa', f'{tag}: altitude_from_pressure(p[{j}]={pl[j]!r}) = {r[j]!r}, expected {alts[j]!r}')
+        ok, st = _call(acc, 'isa-raised', f'{tag} AtmosphericState', S['etypes'].AtmosphericState, alt, tas)
+        if ok:
+            for j in range(N):
+                acc.cmp('reuse-isa', lambda j=j: f'{tag}: AtmosphericState T[{j}]', st.temperature[j], tl[j], 1e-12)
+                acc.cmp('reuse-isa', lambda j=j: f'{tag}: AtmosphericState p[{j}]', st.pressure[j], pl[j], 1e-11)
+                acc.cmp('reuse-isa', lambda j=j: f'{tag}: AtmosphericState Mach[{j}]', st.mach[j], mc[j], 1e-12)
+        ok, r = _call(acc, 'isa-raised', f'{tag} density', sa.calculate_air_density, pb, tb)
+        if ok:
+            for j in range(N):
+                acc.cmp('reuse-isa', lambda j=j: f'{tag}: density[{j}]', np.asarray(r)[j], R.isa_density(pl[j], tl[j]), 1e-12)
+
+        # ---- FFM2
+        ok, w = _call(acc, 'ffm2-raised', f'{tag} FFM2', eu.get_SLS_equivalent_fuel_flow, fin, pb, tb, mach)
+        if ok:
+            w = np.asarray(w, float)
+            for j in range(N):
+                acc.cmp('reuse-ffm2', lambda j=j: f'{tag}: Wf_SL[{j}] (ff={float(fin[j])!r}, M={mc[j]})', w[j], R.ffm2_sls_fuel_flow(float(fin[j]), pl[j], tl[j], mc[j], 2))
+
+        # ---- thrust category (flow buffer + calibration object edited in place)
+        ok, cats = _call(acc, 'category-raised', f'{tag} get_thrust_cat_cruise', eu.get_thrust_cat_cruise, ff, ffcal_tm)
+        if ok:
+            cl = [str(getattr(c, 'value', c)) for c in cats]
+            for j in range(N):
+                acc.compared += 1
+                if j >= len(cl) or cl[j] != ref_cats[j]:
+                    acc.add('reuse-thrust-category', f'{tag}: ff={fl[j]!r} ff_cal={ffcal} AEIC={cl[j] if j < len(cl) else None} reference={ref_cats[j]}')
+
+        # ---- NOx
+        ok, res = _call(acc, 'nox-raised', f'{tag} BFFM2_EINOx', S['nox'].BFFM2_EINOx, ff, ei_tm['nox'], ffcal_tm, tb, pb)
+        if ok:
+            nx = np.asarray(res.NOxEI, float)
+            slope, icpt = R.loglog_least_squares(ffcal, eis['nox'])
+            acc.sane(f'{tag}: NOx', nx)
+            for j in range(N):
+                fno, fno2, fhono = R.nox_speciation(ref_cats[j])
+                acc.cmp('reuse-nox', lambda j=j: f'{tag}: noProp at ff={fl[j]!r}', res.noProp[j], fno, 1e-12)
+                if fl[j] > 0:
+                    exp = math.pow(10.0, icpt) * math.pow(fl[j], slope) * R.bffm2_humidity_factor(tl[j], pl[j])
+                    acc.cmp('reuse-nox', lambda j=j: f'{tag}: NOx EI at ff={fl[j]!r} T={tl[j]!r} p={pl[j]!r} EI={eis["nox"]} ff_cal={ffcal}', nx[j], exp)
+                    acc.cmp('reuse-nox', lambda j=j: f'{tag}: NO2 EI at ff={fl[j]!r}', res.NO2EI[j], exp * fno2)
+
+        # ---- HC then CO, back to back on the same flow buffer (as the trajectory code does)
+        hc_out = None
+        for label in ('hc', 'co'):
+            ok, got = _call(acc, 'hcco-raised', f'{tag} EI_HCCO[{label}]', S['hcco'].EI_HCCO, ff, ei_tm[label], ffcal_tm, tb, pb)
+            if not ok:
+                continue
+            got = np.asarray(got, float)
+            acc.sane(f'{tag}: {label}', got)
+            if got.shape != (N,):
+                acc.add('shape', f'{tag}: {label} shape {got.shape}')
+                continue
+            fit = R.hcco_fit(eis[label], ffcal)
+            brk = fit[0]
+            for j in range(N):
+                if fl[j] <= 0:
+                    continue
+                val, alt_v, _ = R.hcco(fl[j], eis[label], ffcal, tl[j], pl[j])
+                acc.compared += 1
+                g = float(got[j])
+                if _close(g, val) or (fl[j] != brk and abs(fl[j] - brk) <= 4 * math.ulp(brk) and _close(g, alt_v)):
+                    continue
+                acc.add(f'reuse-hcco-{label}', f'{tag}: {label} EI at ff={fl[j]!r} AEIC={g!r} reference={val!r}; EI={eis[label]} ff_cal={ffcal} T={tl[j]!r} p={pl[j]!r}')
+            if label == 'hc':
+                hc_out = got
+
+        # ---- volatile PM on reused thrust / HC / category buffers
+        thr[:] = [R.CAT_THRUST_PCT[c] for c in ref_cats]
+        tma.data[:] = ref_cats
+        if hc_out is not None and np.all(np.isfinite(hc_out)):
+            hcb[:] = hc_out
+            ok, r2 = _call(acc, 'pmvol-raised', f'{tag} EI_PMvol_FOA3', S['pmvol'].EI_PMvol_FOA3, thr, hcb)
+            if ok:
+                for j in range(N):
+                    exp = R.foa3_pmvol(float(thr[j]), float(hcb[j]))
+                    acc.cmp('reuse-pmvol', lambda j=j: f'{tag}: FOA3 PMvol[{j}]', r2[0][j], exp)
+                    acc.cmp('reuse-pmvol', lambda j=j: f'{tag}: FOA3 OCic[{j}]', r2[1][j], exp)
+        ok, r3 = _call(acc, 'pmvol-raised', f'{tag} EI_PMvol_FuelFlow', S['pmvol'].EI_PMvol_FuelFlow, ff, tma)
+        if ok:
+            for j in range(N):
+                acc.cmp('reuse-pmvol', lambda j=j: f'{tag}: fuel-flow PMvol[{j}] (category {ref_cats[j]})', r3[0][j], R.fuelflow_pmvol(ref_cats[j])[0], 1e-12)
+
+        # ---- MEEM: reused profile buffers and an engine entry edited in place; no scalar reference
+        #      exists (sanity clauses only), so the answer must equal the answer for fresh objects
+        #      with the same contents
+        prof = [max(h - 600.0, 0.0), h, h + 400.0 * step, max(h - 600.0, 0.0), max(h - 1200.0, 0.0)]
+        m_alt[:] = prof
+        m_t[:] = [R.isa_temperature(a) for a in prof]
+        m_p[:] = [R.isa_pressure(a) for a in prof]
+        m_m[:] = mc[:5]
+        mass = [0.74 * scale, 1.72 * scale, 44.0 * scale, 70.8 * scale]
+        num = [2.66e13 * scale, 7.1e13 * scale, 4.33e14 * scale, 4.02e14 * scale]
+        sn = [2.1 + step, 2.1, 11.2, 13.4 + step]
+        for mo, a, b, c in zip(TM, mass, num, sn):
+            edb.nvPM_mass_matrix[mo] = a
+            edb.nvPM_num_matrix[mo] = b
+            edb.SN_matrix[mo] = c
+        edb.EImass_max, edb.EInum_max = 70.8 * scale, 4.33e14 * scale
+        try:
+            got = S['pmnvol'].PMnvol_MEEM(edb, m_alt, m_t, m_p, m_m)
+            fresh = S['pmnvol'].PMnvol_MEEM(
+                _edb(sn, 'TF', 5.1, mass, num, 70.8 * scale, -1.0, 4.33e14 * scale, -1.0), m_alt.copy(), m_t.copy(), m_p.copy(), m_m.copy()
+            )
+            acc.compared += 1
+            for nm, a, b in zip(('GMD', 'mass', 'number'), got, fresh):
+                acc.sane(f'{tag}: MEEM {nm}', a)
+                if not _nan_equal(a, b):
+                    acc.add('reuse-meem', f'{tag}: MEEM {nm} with reused objects {np.asarray(a).tolist()} != with fresh objects of the same contents {np.asarray(b).tolist()}')
+            prof_s = eu.scope11_profile(edb).mass
+            gotp = [float(prof_s[mo]) for mo in TM]
+            expp = [R.scope11_mass(x, name, 'TF', 5.1) for x, name in zip(sn, R.MODES)]
+            if step == 0:
+                first_sn, first_exp = list(sn), expp
+            acc.compared += 1
+            if not all(_close(g, e) for g, e in zip(gotp, expp)):
+                # signature of C12-scope11-profile-stale-after-edit: exactly the profile of the smoke
+                # numbers the entry object held when scope11_profile first saw it
+                stale = step > 0 and all(_close(g, e) for g, e in zip(gotp, first_exp))
+                acc.add(
+                    'reuse-scope11',
+                    f'{tag}: scope11_profile(entry edited in place, SN now {sn}) = {gotp}, reference {expp}'
+                    + (f'; equals the profile of the earlier contents SN={first_sn}' if stale else ''),
+                    finding='C12-scope11-profile-stale-after-edit' if stale else None,
+                )
+        except Exception as ex:  # noqa: BLE001
+            acc.add('meem-raised', f'{tag}: {type(ex).__name__}: {str(ex)[:200]}')
+
+        # ---- nothing may have written into the caller's buffers
+        if not (np.array_equal(ff, np.array(fl)) and np.array_equal(tb, np.array(tl)) and np.array_equal(pb, np.array(pl)) and np.array_equal(alt, np.array(alts))):
+            acc.add('input-mutated', f'{tag}: a work buffer was modified by the functions under test')
+    same = 'same-set' if case['a'] == case['b'] else 'different-sets'
+    return {'outcome': f'reuse:{same}:{"same-alt" if h1 == h2 else "alt-change"}', 'nontrivial': acc.compared > 0, 'violations': acc.v}
+
+
 # --------------------------------------------------------------------------- SOx
 
 
@@ -1004,7 +1234,7 @@ def _run_meem(case):
 
 # --------------------------------------------------------------------------- dispatch
 
-_RUN = {'cat': _run_cat, 'isa': _run_isa, 'chain': _run_chain, 'sox': _run_sox, 's11': _run_s11, 'foa3': _run_foa3, 'meem': _run_meem}
+_RUN = {'reuse': _run_reuse, 'cat': _run_cat, 'isa': _run_isa, 'chain': _run_chain, 'sox': _run_sox, 's11': _run_s11, 'foa3': _run_foa3, 'meem': _run_meem}
 
 
 def run_case(case):
